@@ -36,6 +36,10 @@ pub trait WorldDriver: Sized {
     /// executes, `body` runs while its borrow is held.
     fn baccess(&self, acc: &BAccess, body: &mut dyn FnMut(BObs));
 
+    /// Leaks (`mem::forget`) a runtime-borrow guard of one column: safe code, after which the
+    /// RefCell of that column stays borrowed forever.
+    fn leak_guard(&self, a: usize, col: usize, mutable: bool);
+
     fn dump(&self, a: usize) -> VerifDump;
     fn preset(&mut self, a: usize, slot_gens: &[u32], arch_gen: u32);
     /// `__internal::new_entity_direct::<A>(idx, version)` (public but hidden; used for forging)
@@ -229,6 +233,7 @@ macro_rules! arch_driver {
                 tracked: vec![$( <$C as Stamp>::TRACKED ),+],
                 col_names: vec![$( stringify!($C) ),+],
                 zst_tracked: [$( stringify!($C) ),+].iter().filter(|n| **n == "Ztrk").count(),
+                tok_cols: [$( stringify!($C) ),+].iter().filter(|n| **n == "Tok").count(),
             }
         }
 
@@ -599,6 +604,56 @@ macro_rules! arch_driver {
                         col_into(&mut out, &*s);
                     } )+
                 }
+                IterPath::ArchIterSkip => {
+                    // any way of consuming the iterator must present consistent items
+                    let k = break_at.unwrap_or(1);
+                    for (e, $( $v ),+) in w.$f.iter().skip(k) {
+                        let mut o = Obs::of(e.to_raw());
+                        $( o.push($v); )+
+                        out.push(o);
+                    }
+                }
+                IterPath::ArchIterStepBy => {
+                    let k = break_at.unwrap_or(2).max(1);
+                    for (e, $( $v ),+) in w.$f.iter().step_by(k) {
+                        let mut o = Obs::of(e.to_raw());
+                        $( o.push($v); )+
+                        out.push(o);
+                    }
+                }
+                IterPath::ArchIterMutNth => {
+                    let k = break_at.unwrap_or(1);
+                    let mut it = w.archetype_mut::<$A>().iter_mut();
+                    if let Some((e, $( $v ),+)) = it.nth(k) {
+                        let mut o = Obs::of(e.to_raw());
+                        $( o.push(&*$v); )+
+                        out.push(o);
+                    }
+                    for (e, $( $v ),+) in it {
+                        let mut o = Obs::of(e.to_raw());
+                        $( o.push(&*$v); )+
+                        out.push(o);
+                    }
+                }
+                IterPath::ArchIterCount => {
+                    // size_hint / count / last must agree with a plain walk
+                    let (lo, hi) = w.$f.iter().size_hint();
+                    let n = w.$f.iter().count();
+                    let last = w.$f.iter().last().map(|t| t.0.to_raw());
+                    let mut walked = 0usize;
+                    let mut last_walked = None;
+                    for (e, $( $v ),+) in w.$f.iter() {
+                        let mut o = Obs::of(e.to_raw());
+                        $( o.push($v); )+
+                        out.push(o);
+                        walked += 1;
+                        last_walked = Some(e.to_raw());
+                    }
+                    if n != walked || lo > walked || hi.map(|h| h < walked).unwrap_or(false) || last != last_walked {
+                        // make the disagreement visible as a malformed observation
+                        out.push(Obs::bare());
+                    }
+                }
                 IterPath::AllSlices => {
                     let s = w.$f.get_all_slices_mut();
                     out = s.entity.iter().map(|e| Obs::of(e.to_raw())).collect();
@@ -650,6 +705,18 @@ macro_rules! arch_driver {
                     decide(&o).to_gecs()
                 }),
             }
+        }
+
+        #[allow(unused_assignments)]
+        pub fn leak_guard(w: &$W, col: usize, mutable: bool) {
+            let mut i = 0usize;
+            $( if i == col {
+                if mutable {
+                    std::mem::forget(w.$f.borrow_slice_mut::<$C>());
+                } else {
+                    std::mem::forget(w.$f.borrow_slice::<$C>());
+                }
+            } i += 1; )+
         }
 
         /// Engine B access on this archetype (see `WorldDriver::baccess`).
@@ -921,6 +988,7 @@ macro_rules! world_driver {
                 }
                 match acc.arch { $( $i => $m::baccess(self, acc, body), )+ _ => unreachable!() }
             }
+            fn leak_guard(&self, a: usize, col: usize, mutable: bool) { match a { $( $i => $m::leak_guard(self, col, mutable), )+ _ => unreachable!() } }
             fn dump(&self, a: usize) -> $crate::types::VerifDump { match a { $( $i => $m::dump(self), )+ _ => unreachable!() } }
             fn preset(&mut self, a: usize, slot_gens: &[u32], arch_gen: u32) { match a { $( $i => $m::preset(self, slot_gens, arch_gen), )+ _ => unreachable!() } }
             fn new_direct(a: usize, idx: usize, version: $crate::driver::ArchetypeVersion) -> EntityDirectAny {
